@@ -134,6 +134,7 @@ Wrap(S) ==
     {[op |-> "fold", it |-> PV("x"), x |-> "i", i |-> a, last |-> NoneI] : a \in S}
     \cup {[op |-> "fold", it |-> PV("$s"), x |-> "j", i |-> a, last |-> NoneI] : a \in S}
     \cup {[op |-> "fold", it |-> PV("y"), x |-> "i", i |-> a, last |-> [op |-> "null"]] : a \in S}
+    \cup {[op |-> "fold", it |-> PV("x"), x |-> "x", i |-> a, last |-> NoneI] : a \in S}
     \cup {[op |-> "new", n |-> "x", i |-> a] : a \in S}
     \cup {[op |-> "match", a |-> PV("x"), b |-> SL("lit"), i |-> a] : a \in S}
     \cup {[op |-> "mismatch", a |-> PV("y"), b |-> PV("x"), i |-> a] : a \in S}
@@ -235,8 +236,24 @@ BeautifyExpect(c, o) ==
     o.res \in {"ok", "err"} /\ (o.res = "ok" => o.lines = Shape(c.script, 0))
 
 \* ---------------------------------------------------------------------------
+\* C01, text and byte entry points: token-level mutations of catalogue scripts (parse, beautify, execute) and
+\* byte-level mutations of honest data (execute as current data, pretty-print); the only expectation is totality
+TextOps == {"drop", "dup", "swap", "open", "close", "trunc", "quote", "deep", "long", "lens", "num"}
+TextCases == {c \in {[family |-> "text", base |-> b, op |-> o, pos |-> k] : b \in {"SM1", "SM2", "SM3", "SM4"}, o \in TextOps, k \in 0..15} :
+                 c.op \in {"deep", "long", "verydeep"} => (c.pos = 0 /\ c.base \in {"SM1", "SM4"})}
+              \cup {[family |-> "text", base |-> "SM1", op |-> "verydeep", pos |-> 0]}
+ByteOps == {"flip", "zero", "ff", "trunc", "dup", "ins"}
+ByteCases == {[family |-> "bytes", op |-> o, pos |-> k] : o \in ByteOps, k \in 0..63}
+RunScriptCases == {[family |-> "runscript", script |-> s] : s \in ScriptSpace}
+RunScriptExpect(c, o) == o.exec_died = ""
+TextExpect(c, o) == o.parse # "panic" /\ o.beautify # "panic" /\ o.exec_died = ""
+BytesExpect(c, o) == o.pretty # "panic" /\ o.exec_died = ""
+
 Cases ==
     CASE Family = "version" -> VersionCases
+      [] Family = "text" -> TextCases
+      [] Family = "runscript" -> RunScriptCases
+      [] Family = "bytes" -> ByteCases
       [] Family = "limits" -> LimitCases
       [] Family = "lens" -> LensCasesNorm
       [] Family = "parse" -> ParseCases
@@ -248,6 +265,9 @@ Expect(c, o) ==
       [] c.family = "lens" -> LensExpect(c, o)
       [] c.family = "parse" -> ParseExpect(c, o)
       [] c.family = "beautify" -> BeautifyExpect(c, o)
+      [] c.family = "text" -> TextExpect(c, o)
+      [] c.family = "runscript" -> RunScriptExpect(c, o)
+      [] c.family = "bytes" -> BytesExpect(c, o)
 
 \* --- enumeration: every case is an initial state
 VARIABLES cs, l
